@@ -145,7 +145,7 @@ def lowerAttr (o : Opts) (env : Env) (a : Node) (st : St) : Option Node × St :=
     else (none, st)
   | none => (none, st)
 
-theorem trAttrs_cons (o : Opts) (env : Env) (c : Bool) (a : Node) (rest : List Node) (acc : AttrAcc) (st : St) :
+theorem trAttrs_cons_lower (o : Opts) (env : Env) (c : Bool) (a : Node) (rest : List Node) (acc : AttrAcc) (st : St) :
     trAttrs o env c (a :: rest) acc st =
       (let (lowered, st) := lowerAttr o env a st
        let (acc, st) := attrStep o c a lowered acc st
@@ -474,7 +474,7 @@ theorem lowering_rel_aux (o : Opts) (env : Env) (n : Nat) :
       cases hl with
       | nil => rw [trAttrs_nil, trAttrs_nil]; exact ⟨hacc, hs⟩
       | @cons x y xs ys hx hxs =>
-        rw [trAttrs_cons, trAttrs_cons]
+        rw [trAttrs_cons_lower, trAttrs_cons_lower]
         -- the element / fragment value, if any
         have hlow : OptRel (lowerAttr { o with optimize := true } env x s1).1 (lowerAttr { o with optimize := false } env y s2).1 ∧
             StSim (lowerAttr { o with optimize := true } env x s1).2 (lowerAttr { o with optimize := false } env y s2).2 := by
